@@ -31,10 +31,14 @@ TypeAt(p) == CASE p = "mrt" -> {"type", "subtype"} [] p = "bmp" -> {"type", "ver
    EVERY octet offset in both tiers, which includes every offset inside their nested elements (RIB entries,
    the carried BGP message, the BMP per-peer header, TLVs); ZAPI messages at the position classes (quick)
    and at every offset (thorough) *)
+(* plain truncation (the header still declares the full length) is rejected by the outer length check of
+   every format: quick samples it at every offset of the first 48 octets plus the position classes *)
+TruncAbs(p) == IF Thorough \/ MaxAbs(p) < 48 THEN MaxAbs(p) ELSE 48
 EveryOffset(p) == Thorough \/ p # "zapi"
 Muts(p) == {[m |-> "none", at |-> "-", n |-> 0]}
            \cup {[m |-> mm, at |-> a, n |-> 0] : mm \in {"trunc", "cut"}, a \in TruncAt}
-           \cup (IF EveryOffset(p) THEN {[m |-> mm, at |-> "abs", n |-> k] : mm \in {"trunc", "cut"}, k \in 0..MaxAbs(p)} ELSE {})
+           \cup (IF EveryOffset(p) THEN {[m |-> "cut", at |-> "abs", n |-> k] : k \in 0..MaxAbs(p)} ELSE {})
+           \cup (IF EveryOffset(p) THEN {[m |-> "trunc", at |-> "abs", n |-> k] : k \in 0..TruncAbs(p)} ELSE {})
            \cup {[m |-> "len", at |-> a, n |-> 0] : a \in LenAt}
            \cup {[m |-> "type", at |-> a, n |-> 0] : a \in TypeAt(p)}
 
